@@ -247,6 +247,37 @@ def gen_boundary(seed, labels):
             "level": "C", "via": rng.choice(["stdin", "path"]), "samples_via": "arg", "threads": rng.choice([None, 2]), "boundary": True}
 
 
+def check_wordlike(S, p):
+    """Every (word-like sample name) x (word-like population label) pair - names such as `sample`, `NA`, `id`, labels such as `[unnamed]`,
+    `NA`, `null` - listed FIRST, next to an unlabelled sample and an ordinarily labelled one, through --samples and --samples-file: a name is
+    a name and a label is a label, whatever they look like."""
+    pairs = [(n_, l_) for n_ in G.WORDLIKE_NAMES for l_ in G.WORDLIKE_LABELS]
+    idx = int(p["name"][1:])
+    for k, (wname, wlabel) in enumerate(pairs):
+        if k % NSHARD != idx:
+            continue
+        rng = rng_for(S.seed, "c01", "wordlike", wname, wlabel)
+        samples = [wname, "s1", "s2", "s3"]
+        rng.shuffle(samples)
+        recs = [Record("c1", 5 + j, [gt((rng.randint(0, 1), rng.randint(0, 1))) for _ in samples]) for j in range(6)]
+        cs = CallSet(samples, [("c1", 10 ** 6)], recs)
+        smap = [(wname, wlabel), ("s1", None), ("s2", "A")]
+        if k % 2:
+            smap = [(wname, None), ("s1", wlabel), ("s2", "A")]
+        exp = reference_create(cs, smap)
+        want = ("#SHAPE=<%s>\n%s\n" % ("/".join(map(str, exp.shape)), " ".join(str(int(x)) for x in exp.cells))).encode()
+        for via in ("arg", "file"):
+            r = E.cli_create(cs.to_vcf(), smap, samples_via=via)
+            S.count("C_runs")
+            S.count("C_wordlike_runs")
+            if r.rc != 0 or r.out != want:
+                from .. import replay as R
+                S.viol("C01:wordlike:%s" % via, "[C sample %r, label %r, list %r via %s] rc %s stdout %r stderr %r, expected %r" % (
+                    wname, wlabel, E.map_json(smap), via, r.rc, r.out[:100], r.err[:160], want[:100]),
+                    {"level": "C", "argv": r.argv, "map": E.map_json(smap), "vcf": cs.to_vcf().decode(), "run": r.brief(), "replay": R.exact(r, want)})
+            S.case(key=digest(["wordlike", wname, wlabel, via]), nontrivial=True)
+
+
 def check_bcf_sample_counts(S, p):
     """BCF lets every record declare its own number of samples. A record that declares fewer than the header names (0: a sites-only
     record; n-1: the last column missing) carries no genotype for some SELECTED sample: it must be refused, or contribute nothing
@@ -308,6 +339,7 @@ def shard(S, p):
     for lo in range(0, p["c"], B):
         run_level_C(S, seed, [gen(seed, [p["name"], "C", i], "C") for i in range(lo, min(p["c"], lo + B))])
     check_bcf_sample_counts(S, p)
+    check_wordlike(S, p)
     idx = int(p["name"][1:])
     if idx % 4 == 2:
         run_level_C(S, seed, [gen_wide(seed, [p["name"], "wide", 0])])
